@@ -818,6 +818,21 @@ REFINEMENT_THEOREMS.update({
 })
 
 
+# third batch: ADC r/m, imm8; CWD, LEA r16, MOVZX r16; the moffs encodings; the vector forms; IDIV 16/8; PUSH r/m16
+REFINEMENT_THEOREMS.update({
+    "Adc_rm64_imm8": ("C02", "C02_adc_imm8"), "Adc_rm32_imm8": ("C02", "C02_adc_imm8"), "Adc_rm16_imm8": ("C02", "C02_adc_imm8"),
+    "Adc_rm8_imm8_82": ("C02", "C02_adc_imm8"),
+    "Cwd": ("C01", "C01_cwd"), "Lea_r16_m": ("C01", "C01_lea_r16"), "Movzx_r16_rm8": ("C01", "C01_movzx_r16_rm8"),
+    "Mov_RAX_moffs64": ("C01", "C01_mov_acc_moffs"), "Mov_EAX_moffs32": ("C01", "C01_mov_acc_moffs"),
+    "Mov_AX_moffs16": ("C01", "C01_mov_acc_moffs"), "Mov_AL_moffs8": ("C01", "C01_mov_acc_moffs"),
+    "Mov_moffs64_RAX": ("C01", "C01_mov_moffs64_rax"), "Mov_moffs32_EAX": ("C01", "C01_mov_moffs_acc_32_16_8"),
+    "Mov_moffs16_AX": ("C01", "C01_mov_moffs_acc_32_16_8"), "Mov_moffs8_AL": ("C01", "C01_mov_moffs_acc_32_16_8"),
+    "Xorps_xmm_xmmm128": ("C01", "C01_xmm"), "Movups_xmm_xmmm128": ("C01", "C01_xmm"), "Movups_xmmm128_xmm": ("C01", "C01_xmm"),
+    "Movd_xmm_rm32": ("C01", "C01_xmm"), "Movd_rm32_xmm": ("C01", "C01_xmm"),
+    "Idiv_rm16": ("C06", "C06_idiv_rm16"), "Idiv_rm8": ("C06", "C06_idiv_rm8"), "Push_rm16": ("C04", "C04_push_rm16"),
+})
+
+
 def refined_forms():
     out = {}
     for form, (pid, thm) in REFINEMENT_THEOREMS.items():
